@@ -133,9 +133,12 @@ class QuantityPoint {
               typename = std::enable_if_t<IsUnit<AssociatedUnitForPointsT<NewUnit>>::value>>
     constexpr NewRep in(NewUnit u) const {
         using CalcRep = typename detail::IntermediateRep<Rep, NewRep>::type;
-        return (rep_cast<CalcRep>(x_) -
-                rep_cast<CalcRep>(
-                    OriginDisplacement<Unit, AssociatedUnitForPointsT<NewUnit>>::value()))
+        // The outer `rep_cast` is needed because if these are integral types, their difference might
+        // become a different type due to integer promotion.
+        return rep_cast<CalcRep>(
+                   rep_cast<CalcRep>(x_) -
+                   rep_cast<CalcRep>(
+                       OriginDisplacement<Unit, AssociatedUnitForPointsT<NewUnit>>::value()))
             .template in<NewRep>(associated_unit_for_points(u));
     }
 
